@@ -21,7 +21,7 @@ from coqfmt import zraw, b, lst, opt, tup, s as cstr
 
 replay = common.generic_replay
 
-IMPORTS = 'Graph PeriodicTable Stereo Rdkit RdkitRegistry RdkitBonds'
+IMPORTS = 'Graph PeriodicTable Stereo Rdkit RdkitRegistry RdkitBonds RdkitRings'
 EXTRA = '''From Gen Require Import Elements RdkitTables RdkitSign.
 From Model Require Import RdkitApi.
 Open Scope string_scope.
@@ -86,6 +86,7 @@ Definition reg_ok g B exp := list_eqb (pair_eqb Z.eqb (list_eqb Z.eqb)) (stereog
   list_eqb cbond_eqb (bonds_of g) B && wf_mol g.
 Definition plain_ok a bb exp := Bool.eqb (uses_plain_order a bb) exp.
 Definition ringb_ok sizes exp := Bool.eqb (ring_bond_chiral sizes) exp.
+Definition ringt_ok ar n m exp := Bool.eqb (ring_terminal ar n m) exp.
 Definition rbo_ok t exp := pyres_eqb Z.eqb (rdkit_bond_order t) exp.
 (* direct calls of the two sign functions against their TRANSLATED bodies (Gen.RdkitSign), every argument shape incl. s = None *)
 Definition lab_of (t : list (Z * Z * option bool)) (i j : Z) : pyres (option bool) :=
@@ -266,6 +267,27 @@ RING_ALKENE_SMILES = ['C1CCC/C=C/CC1', 'C1CCC/C=C\\CC1', 'C1CC/C=C\\CC1', 'C1CCC
                       'CC1CC/C=C/CCC1', 'CC1CC/C=C\\CCC1', 'OC1CCC/C=C\\CC1', 'C1CCCC/C=C\\CC1', 'C1CCCC/C=C/CCC1', 'C1C/C=C\\CC1', 'O=C1CC/C=C/CCC1',
                       'C1CCC/C=C/C/C=C/CCC1', 'C1CC/C(C)=C(C)\\CCC1', 'N1CCC/C=C/CC1', 'C1CCC/C=C/CC1C(=O)O', 'C/1CCCCCC\\C=1', 'CCC/C=C/CCC',
                       'C1CCCCC/C=C/CCCCC1']
+
+
+def ring_linker_smiles():
+    """E/Z double bonds whose two ends are ring atoms of two DIFFERENT rings (rings of 3-9 atoms on either side, each made unsymmetric by a
+    ring oxygen or a methyl group next to the double bond), biaryl-fused members of the same class (indigo / isoindigo / thioindigo / biindanylidene
+    type), and controls: one end only in a ring, both ends in one ring of a bicycle, the two ends in different rings of one spiro / fused system"""
+    out = []
+    for a in range(3, 10):
+        for b_ in range(3, 10):
+            for d in ('/', '\\'):
+                out.append(f'O1{"C" * (a - 2)}/C1=C1{d}{"C" * (b_ - 2)}O1')
+        for d in ('/', '\\'):
+            out.append(f'CC1{"C" * (a - 2)}/C1=C1{d}{"C" * (a - 2)}C1C' if a > 3 else f'CC1C/C1=C1{d}CC1C')
+            out.append(f'C/C=C1{d}{"C" * (a - 2)}O1')                       # control: one end in a ring
+    for d in ('/', '\\'):
+        out += [f'O=C1Nc2ccccc2/C1=C1{d}C(=O)Nc2ccccc12', f'O=C1c2ccccc2S/C1=C1{d}Sc2ccccc2C1=O', f'O=C1c2ccccc2N/C1=C1{d}Nc2ccccc2C1=O',
+                f'C1Cc2ccccc2/C1=C1{d}CCc2ccccc12', f'O=C1CCC/C1=C1{d}CCCC1=O', f'CC1CCC/C(C1)=C1{d}CCCC(C)C1',
+                f'CC1CC2CCC1/C2=C1{d}CCCO1', f'C1CCC2(CC1)CC/C2=C1{d}CCCCO1', f'O1CCC/C1=C1{d}OCCC12CCCC2']
+    return out
+
+
 # tetrahedral centres whose arms differ ONLY by the configuration of a double bond (and controls: the same with another labelled
 # centre, double bonds whose ends differ only by tetrahedral configuration, allene arms); no other labelled centre in the molecule
 EZ_DEPENDENT_SMILES = ['C/C=C/[C@H](O)/C=C\\C', 'CC/C(C)=C\\[C@H](N)/C=C(\\C)CC', 'C/C(CC)=C/[C@@H](N)/C=C(/CC)C',
@@ -396,6 +418,22 @@ def corr_ring_bonds(cs, tag, m):
     """the ring-size rule of __chiral_centers on every plain ring double bond of m: it counts as a stereo element (labelled, or
     offered as chiral) exactly when no ring through its first atom has fewer than eight atoms"""
     ck = cs.ck
+    try:
+        # the selection itself: every stereogenic double bond / cumulene chain against the common-ring test on atoms_rings
+        terms = m.ring_cumulenes_terminals
+        ar = m.atoms_rings
+        for chain in m.stereogenic_cumulenes:
+            n, mm = chain[0], chain[-1]
+            if n not in ar and mm not in ar and cs.rng.random() >= 0.1:
+                continue
+            art = lst([(k, ar[k]) for k in dict.fromkeys((n, mm)) if k in ar], lambda kv: tup(zraw(kv[0]), lst(kv[1], lambda r: lst(r, zraw))))
+            obs = (n, mm) in terms
+            cs.add(f'ringt_ok {art} {zraw(n)} {zraw(mm)} {b(obs)}', (tag, 'ring-terminal', n, mm, obs))
+            both = n in ar and mm in ar
+            ck.count('ring-terminal:' + ('common ring' if obs else 'two different rings' if both else 'not both ring atoms'))
+            ck.case(('ringt', tag, n, mm), nontrivial=both)
+    except Exception:
+        pass
     try:
         terms = m.ring_cumulenes_terminals
         reg = m.stereogenic_cis_trans
@@ -983,6 +1021,7 @@ def correspondence(ck, n_corpus):
            [('atoms', x) for x in pick(ATOM_SMILES, 22, 'at')] + [('bare', x) for x in pick(BARE_SMILES, 3, 'ba')] + [('dative', x) for x in pick(dative_smiles(), 8, 'da')] + \
            [('isotope+charge', x) for x in ISO_CHARGE_SMILES[:6] + pick(ISO_CHARGE_SMILES[6:], 4, 'ic')] + \
            [('ring-alkene', x) for x in RING_ALKENE_SMILES[:6] + pick(RING_ALKENE_SMILES[6:], 4, 'ra')] + \
+           [('ring-linker alkene', x) for x in pick(ring_linker_smiles(), 10, 'rl')] + \
            [('E/Z-dependent centre', x) for x in EZ_DEPENDENT_SMILES[:5] + pick(EZ_DEPENDENT_SMILES[5:], 3, 'ez')] + \
            [('perm', x) for x in pick(perm_smiles(), 14, 'pe')] + \
            [('corpus', x) for x in corpus.sample(corpus.lipo(), n_corpus, ck.seed, 'c20corr')] + \
@@ -991,7 +1030,7 @@ def correspondence(ck, n_corpus):
     for kind, smi in pool:
         forms = normal_forms(smi)
         ck.count('corr-input:' + kind + ('' if forms else ' (not accepted by chython)'))
-        rich = kind in ('stereo', 'perm', 'corpus-stereo', 'ring-alkene', 'E/Z-dependent centre')
+        rich = kind in ('stereo', 'perm', 'corpus-stereo', 'ring-alkene', 'ring-linker alkene', 'E/Z-dependent centre')
         if forms:
             kek, aro = forms
             variants = [('kekule', kek), ('aromatic', aro)] if str(kek) != str(aro) else [('plain', kek)]
@@ -1871,6 +1910,7 @@ def search(ck, n_corpus, extra=()):
     pool = [('directed', s) for s in extra] + [('stereo', s) for s in STEREO_SMILES] + [('metal', s) for s in METAL_SMILES] + \
            [('atoms', s) for s in ATOM_SMILES] + [('bare', s) for s in BARE_SMILES] + [('dative', s) for s in dative_smiles()] + \
            [('isotope+charge', s) for s in ISO_CHARGE_SMILES] + [('ring-alkene', s) for s in RING_ALKENE_SMILES] + \
+           [('ring-linker alkene', s) for s in (ring_linker_smiles() if full else corpus.sample(ring_linker_smiles(), 20, ck.seed, 'c20srl'))] + \
            [('E/Z-dependent centre', s) for s in EZ_DEPENDENT_SMILES] + \
            [('perm', s) for s in (perm_smiles() if full else corpus.sample(perm_smiles(), 40, ck.seed, 'c20sp'))] + \
            [('corpus', s) for s in corpus.sample(corpus.lipo(), n_corpus, ck.seed, 'c20search')] + \
@@ -2007,7 +2047,9 @@ REG_EDITS = [('if atom == C and not atom.charge and not atom.is_radical:', 'if a
              ('env = tuple(x for x in bonds[n] if atoms[x] != H)', 'env = tuple(x for x in bonds[n] if atoms[x] != C)', None),
              ('env = tuple(x for x in bonds[n] if atoms[x] != H)', 'env = tuple(x for x in bonds[n])', None),
              ('if len(env) in (3, 4):\n                tetrahedrons[n] = env', 'if len(env) in (4,):\n                tetrahedrons[n] = env', None),
-             ('continue  # skip metal-carbon complexes', 'pass', None)]
+             ('continue  # skip metal-carbon complexes', 'pass', None),
+             ('not set(ar[n]).isdisjoint(ar[m])', 'not set(ar[n]).isdisjoint(ar[n])', None), ('not set(ar[n]).isdisjoint(ar[m])', 'set(ar[n]).isdisjoint(ar[m])', None),
+             ('if n in ar and m in ar and not set', 'if n in ar and not set', None)]
 
 
 def _replace_nth(src, old, new, k, region=None):
@@ -2039,7 +2081,7 @@ def translator_sensitivity(ck):
     for gen, rel, edits, region in (
             (gen_rdkit_body, 'chython/utils/rdkit.py', [(a, b_, None) for a, b_ in BODY_EDITS], None),
             (gen_rdkit_conf, 'chython/utils/rdkit.py', CONF_EDITS, None),
-            (gen_rdkit_registry, 'chython/algorithms/stereo.py', REG_EDITS, ('def tetrahedrons', 'def stereogenic_cumulenes')),
+            (gen_rdkit_registry, 'chython/algorithms/stereo.py', REG_EDITS, ('def tetrahedrons', 'def rings_linker_cumulenes_terminals')),
             (gen_rdkit_sign, 'chython/algorithms/stereo.py', SIGN_EDITS, ('def _translate_tetrahedron_sign', 'def _translate_allene_sign'))):
         src = open(os.path.join(common.REPO, rel)).read()
         try:
